@@ -26,11 +26,13 @@ static void emitForPosition(std::ostream& os, Position& pos, Random& rnd, St& st
     MoveList ml;
     legalMoves(pos, ml);
     Position P(pos);
+    TextIO::fixupEPSquare(P);     // RevMoveGen works on FEN-normalised positions (ep square only if a capture is legal)
     for (int i = 0; i < ml.size; i++) {
         const Move& m = ml[i];
         Position Q(P);
         UndoInfo ui;
         Q.makeMove(m, ui);
+        TextIO::fixupEPSquare(Q);
         std::string s = "{\"e\":\"RevC\",\"p\":{" + posFieldsJ(P) + "},\"m\":" + mvJ(m) + ",\"q\":{" + posFieldsJ(Q) + "}";
         for (int all = 0; all < 2; all++) {
             std::vector<UnMove> ums;
@@ -56,7 +58,9 @@ static void emitForPosition(std::ostream& os, Position& pos, Random& rnd, St& st
     }
 }
 
-static void emitConsistency(std::ostream& os, const Position& Q, Random& rnd, St& st, int maxSample) {
+static void emitConsistency(std::ostream& os, const Position& Q0, Random& rnd, St& st, int maxSample) {
+    Position Q(Q0);
+    TextIO::fixupEPSquare(Q);
     for (int all = 0; all < 2; all++) {
         if (all == 1 && rnd.nextInt(3) != 0) continue;
         std::vector<UnMove> ums;
